@@ -123,6 +123,58 @@ class Runner:
                 "raised": err, "hits": hits}
 
 
+def cli_run(batches, cfgname, cache_dir, wd, devnull):
+    """python -m synrbl run <csv> -o <out> [--cache --cache-dir d] through the argparse entry point; returns the
+    output file's records and the .stats file"""
+    import argparse
+    import csv as _csv
+    from synrbl.SynCmd import cmd_run
+    cfg = CFGS[cfgname]
+    col = cfg["col"]
+    src = os.path.join(wd, "c12_cli_in.csv")
+    dst = os.path.join(wd, "c12_cli_out.csv")
+    for p_ in (dst, dst + ".stats"):
+        if os.path.exists(p_):
+            os.remove(p_)
+    rows_in = []
+    for name in batches:
+        rows_in += [r[col] for r in rows_of(name, col)]
+    with open(src, "w", newline="") as f:
+        w = _csv.DictWriter(f, fieldnames=["rid", col])
+        w.writeheader()
+        for k, r in enumerate(rows_in):
+            w.writerow({"rid": "r%d" % k, col: r})
+    ap = argparse.ArgumentParser()
+    sub = ap.add_subparsers()
+    cmd_run.configure_argparser(sub)
+    argv = ["run", src, "-o", dst, "-p", "1", "--col", col, "--out-columns", "rid"]
+    if cfg["bs"]:
+        argv += ["--batch-size", str(cfg["bs"])]
+    if cfg["threshold"]:
+        argv += ["--min-confidence", str(cfg["threshold"])]
+    if cache_dir:
+        argv += ["--cache", "--cache-dir", cache_dir]
+    err = ""
+    fd = os.dup(2)
+    os.dup2(devnull.fileno(), 2)
+    try:
+        args = ap.parse_args(argv)
+        args.func(args)
+    except BaseException as ex:
+        err = repr(ex)
+    finally:
+        os.dup2(fd, 2)
+        os.close(fd)
+    rows, stats = [], {}
+    if os.path.exists(dst):
+        with open(dst, newline="") as f:
+            rows = [json.dumps(r, sort_keys=True) for r in _csv.DictReader(f)]
+    if os.path.exists(dst + ".stats"):
+        with open(dst + ".stats") as f:
+            stats = {k: int(v) for k, v in json.load(f).items()}
+    return {"rows": rows, "stats": stats, "raised": err, "hits": []}
+
+
 def main():
     plan_file, out_file = sys.argv[1], sys.argv[2]
     with open(plan_file) as f:
@@ -249,6 +301,20 @@ def main():
             emit({"ev": "run", "kind": "history", "installed": {"history_step": step}, "cfg": run["cfg"],
                   "batches": run["batches"], "returned": res["rows"], "expected": exp_rows, "stats": res["stats"],
                   "exp_stats": exp_stats, "raised": res["raised"], "hits": res["hits"],
+                  "history": h[: step + 1]})
+    # 4b. the command line (--cache --cache-dir): the same histories, compared with the command line without --cache
+    cli_refs = {}
+    for h in plan.get("cli_histories", []):
+        shutil.rmtree(cdir, ignore_errors=True)
+        os.makedirs(cdir)
+        for step, run in enumerate(h):
+            k = (tuple(run["batches"]), run["cfg"])
+            if k not in cli_refs:
+                cli_refs[k] = cli_run(run["batches"], run["cfg"], None, wd, R.devnull)
+            res = cli_run(run["batches"], run["cfg"], cdir, wd, R.devnull)
+            emit({"ev": "run", "kind": "cli", "installed": {"history_step": step}, "cfg": run["cfg"],
+                  "batches": run["batches"], "returned": res["rows"], "expected": cli_refs[k]["rows"], "stats": res["stats"],
+                  "exp_stats": cli_refs[k]["stats"], "raised": res["raised"] or cli_refs[k]["raised"], "hits": [],
                   "history": h[: step + 1]})
     # 5. byte-prefix sweep of the file the implementation was writing
     b, c = keys[0]
